@@ -106,6 +106,59 @@ Proof.
   inversion E; subst. eapply pre_trans; [eapply gen_stmt_le; exact E1 | eapply IH; exact E2].
 Qed.
 
+(* ------------------------------------------------------------------ payload edits and the root operation *)
+Lemma find_filter_none : forall l p, find_op_in (filter (fun x => negb (o_id x =? p)) l) p = None.
+Proof.
+  induction l as [|y l IH]; intro p; [reflexivity |]. simpl. destruct (o_id y =? p) eqn:E; simpl; [apply IH |].
+  rewrite E. apply IH.
+Qed.
+Lemma find_after_erase : forall pl p pl', erase_op pl p = Some pl' -> find_op pl' p = None.
+Proof.
+  intros pl p pl' H. unfold erase_op in H. destruct (existsb (has_use_of p) (pl_ops pl)); [discriminate |].
+  inversion H; subst. unfold find_op. simpl. apply find_filter_none.
+Qed.
+Lemma find_after_replace : forall pl p news pl', replace_op pl p news = Some pl' -> find_op pl' p = None.
+Proof.
+  intros pl p news pl' H. unfold replace_op in H. destruct (find_op pl p); [| discriminate].
+  destruct (negb (zlen (o_rtys p0) =? zlen news)); [discriminate |]. eapply find_after_erase. exact H.
+Qed.
+Lemma insert_before_le : forall l root n l', insert_before l root n = Some l' -> root <= maxid l.
+Proof.
+  induction l as [|y l IH]; intros root n l' H; simpl in H; [discriminate |].
+  destruct (o_id y =? root) eqn:E; [apply Z.eqb_eq in E; simpl; lia |].
+  destruct (insert_before l root n) eqn:E2; [| discriminate]. specialize (IH _ _ _ E2). simpl. lia.
+Qed.
+Lemma insert_before_find : forall l root n l' p, insert_before l root n = Some l' -> o_id n <> p ->
+  find_op_in l' p = find_op_in l p.
+Proof.
+  induction l as [|y l IH]; intros root n l' p H Hn; simpl in H; [discriminate |].
+  destruct (o_id y =? root) eqn:E.
+  - inversion H; subst. simpl. destruct (o_id n =? p) eqn:E2; [apply Z.eqb_eq in E2; contradiction | reflexivity].
+  - destruct (insert_before l root n) eqn:E2; [| discriminate]. inversion H; subst. simpl.
+    destruct (o_id y =? p); [reflexivity | eapply IH; eassumption].
+Qed.
+Lemma create_op_find : forall pl root name vs ats ts pl' id,
+  create_op pl root name vs ats ts = Some (pl', id) -> find_op pl' root = find_op pl root.
+Proof.
+  intros pl root name vs ats ts pl' id H. unfold create_op in H. destruct (split_attrs ats) as [as_ ps].
+  match type of H with match ?ib with _ => _ end = _ => destruct ib as [l|] eqn:E end; [| discriminate].
+  inversion H; subst. unfold find_op. simpl. eapply insert_before_find; [exact E |]. simpl.
+  pose proof (insert_before_le _ _ _ _ E). unfold fresh. lia.
+Qed.
+Lemma subst_nil_map : forall p (l : list pop),
+  map (fun y => set_operands y (map (subst_val p []) (o_operands y))) l = l.
+Proof.
+  intros p. induction l as [|y l IH]; [reflexivity |]. simpl. rewrite IH. f_equal.
+  assert (H : map (subst_val p []) (o_operands y) = o_operands y).
+  { induction (o_operands y) as [|v vs IHv]; [reflexivity |]. simpl. rewrite IHv. f_equal.
+    destruct v; simpl; [reflexivity |]. destruct (pid =? p); [rewrite znth_nil |]; reflexivity. }
+  rewrite H. destruct y; reflexivity.
+Qed.
+Lemma replace_nil_erase : forall pl p x, find_op pl p = Some x -> o_rtys x = [] -> replace_op pl p [] = erase_op pl p.
+Proof.
+  intros pl p x Hx Hr. unfold replace_op. rewrite Hx, Hr. simpl. rewrite subst_nil_map. destruct pl; reflexivity.
+Qed.
+
 (* ================================================================== the simulation *)
 Section Sim.
 Variable fx : fixes.
@@ -145,6 +198,13 @@ Lemma steps_nil : forall regs, steps [] regs regs.
 Proof. intros regs rest pl. reflexivity. Qed.
 Lemma steps_app : forall c1 c2 r1 r2 r3, steps c1 r1 r2 -> steps c2 r2 r3 -> steps (c1 ++ c2) r1 r3.
 Proof. intros c1 c2 r1 r2 r3 H1 H2 rest pl. rewrite <- app_assoc, H1, H2. reflexivity. Qed.
+
+Definition steps_at (pl : payload) (c : list rinstr) (regs regs' : list (rreg * obj)) : Prop :=
+  forall rest, run_rewriter fx pid (c ++ rest) regs pl = run_rewriter fx pid rest regs' pl.
+Lemma steps_at_of : forall pl c r1 r2, steps c r1 r2 -> steps_at pl c r1 r2.
+Proof. intros pl c r1 r2 H rest. apply H. Qed.
+Lemma steps_at_app : forall pl c1 c2 r1 r2 r3, steps_at pl c1 r1 r2 -> steps_at pl c2 r2 r3 -> steps_at pl (c1 ++ c2) r1 r3.
+Proof. intros pl c1 c2 r1 r2 r3 H1 H2 rest. rewrite <- app_assoc, H1, H2. reflexivity. Qed.
 
 (* a new operation of the rewriter function (register RT ntmp) whose result translates key k *)
 Lemma Inv_cons : forall e e' st regs k w,
@@ -329,4 +389,245 @@ Proof.
 Qed.
 Lemma vtype_results : forall pl x, find_op pl (o_id x) = Some x -> map (vtype pl) (op_results x) = o_rtys x.
 Proof. intros pl x Hx. unfold op_results. apply vtype_results_gen; [exact Hx | lia | intros j Hj; reflexivity]. Qed.
+Lemma agree_ext : forall e regs regs' ks rs, ext regs regs' ->
+  Forall2 (agree_kr e regs) ks rs -> Forall2 (agree_kr e regs') ks rs.
+Proof.
+  intros e regs regs' ks rs Hx H. induction H as [| k r ks rs (v & H1 & H2) _ IH]; constructor; [| exact IH].
+  exists v. split; [exact H1 | apply Hx; exact H2].
+Qed.
+
+Lemma Inv_local : forall e st regs l w,
+  Inv e st regs ->
+  Inv ((KLocal l, w) :: e)
+      {| rg_vals := (KLocal l, RT (rg_ntmp st)) :: rg_vals st; rg_used := rg_used st; rg_nargs := rg_nargs st;
+         rg_ntmp := rg_ntmp st + 1 |} ((RT (rg_ntmp st), w) :: regs).
+Proof.
+  intros e st regs l w HI. eapply Inv_cons; [exact HI | apply klookup_cons_eq | | | left; apply Hnoloc].
+  - intros k' Hk'. apply klookup_cons_neq. congruence.
+  - intros k' Hk'. rewrite klookup_cons_neq; [apply (I_env _ _ _ HI); exact Hk' |]. intro X; subst. apply Hk'. exact I.
+Qed.
+
+Lemma root_key : forall e st regs, Inv e st regs -> klookup e (KOp (op_id rootpat)) = Some (OOp pid).
+Proof. intros e st regs HI. rewrite (I_env _ _ _ HI) by (intros []). exact Hroot. Qed.
+
+Ltac pre_solve :=
+  repeat match goal with
+         | H : map_values _ _ _ _ _ = Some _ |- _ => apply map_values_le in H
+         | H : map_value _ _ _ _ _ = Some _ |- _ => apply map_value_le in H
+         end;
+  unfold st_le in *; cbn [rg_used] in *;
+  repeat (first [eassumption | eapply pre_trans; [eassumption |]]); try apply pre_refl.
+
+(* a root that declares no result types has no results in the payload (until it is replaced / erased) *)
+Definition RI (pl : payload) : Prop :=
+  op_rtys rootpat = [] -> forall x, find_op pl pid = Some x -> o_rtys x = [].
+Lemma RI_gone : forall pl, find_op pl pid = None -> RI pl.
+Proof. intros pl H _ x Hx. congruence. Qed.
+Lemma RI_create : forall pl name vs ats ts pl' id, create_op pl pid name vs ats ts = Some (pl', id) -> RI pl -> RI pl'.
+Proof. intros pl name vs ats ts pl' id H HR Hn x Hx. rewrite (create_op_find _ _ _ _ _ _ _ _ H) in Hx. eapply HR; eassumption. Qed.
+
+Lemma repl_values_false : forall regs rs,
+  repl_values regs (map (fun r => (false, r)) rs) = all_some (map (rr_val regs) rs).
+Proof.
+  intros regs. induction rs as [|r rs IH]; [reflexivity |]. simpl. rewrite IH.
+  destruct (rr_val regs r); [| reflexivity]. destruct (all_some (map (rr_val regs) rs)); reflexivity.
+Qed.
+Lemma get_opid_key : forall e k p, get_opid e k = Some p -> klookup e k = Some (OOp p).
+Proof. intros e k p H. unfold get_opid in H. destruct (klookup e k) as [[]|]; try discriminate. inversion H. reflexivity. Qed.
+Lemma replace_op_find : forall pl p news pl', replace_op pl p news = Some pl' -> exists x, find_op pl p = Some x /\ o_id x = p.
+Proof.
+  intros pl p news pl' H. unfold replace_op in H. destruct (find_op pl p) as [x|] eqn:E; [| discriminate].
+  exists x. split; [reflexivity | eapply find_op_id; exact E].
+Qed.
+
+Lemma stmts_sim : forall l st stF code e regs pl plF,
+  Inv e st regs -> gen_stmts fx P inp rootpat st l = Some (stF, code) -> pre (rg_used stF) usedF ->
+  RI pl ->
+  run_rw fx pid l e pl = ROk plF ->
+  run_rewriter fx pid (code ++ [RFinalize]) regs pl = ROk plF.
+Proof.
+  induction l as [|s l IH]; intros st stF code e regs pl plF HI Hg Hpre HRI Hd.
+  - simpl in Hg. inversion Hg; subst. simpl in *. exact Hd.
+  - cbn [gen_stmts] in Hg. destruct (gen_stmt fx P inp rootpat st s l) as [[st1 c1]|] eqn:E1; [| discriminate].
+    destruct (gen_stmts fx P inp rootpat st1 l) as [[st2 c2]|] eqn:E2; [| discriminate]. inversion Hg; subst; clear Hg.
+    assert (Hpre1 : pre (rg_used st1) usedF) by (eapply pre_trans; [eapply gen_stmts_le; exact E2 | exact Hpre]).
+    rewrite <- app_assoc.
+    destruct s; cbn [gen_stmt] in E1; cbn [run_rw] in Hd.
+    + (* pdl.attribute *)
+      cbv beta iota zeta delta [rtmp] in E1. inversion E1; subst; clear E1. simpl app. cbn [run_rewriter].
+      eapply IH; [apply Inv_local; exact HI | exact E2 | exact Hpre | exact HRI | exact Hd].
+    + (* pdl.type *)
+      cbv beta iota zeta delta [rtmp] in E1. inversion E1; subst; clear E1. simpl app. cbn [run_rewriter].
+      eapply IH; [apply Inv_local; exact HI | exact E2 | exact Hpre | exact HRI | exact Hd].
+    + (* pdl.operation *)
+      destruct (map_values fx P inp st (map vref_key operands)) as [[[sa ca] ro]|] eqn:Ea; [| discriminate].
+      destruct (map_values fx P inp sa (map (fun na => aref_key (snd na)) attrs)) as [[[sb cb] ra]|] eqn:Eb; [| discriminate].
+      destruct (all_some (map (fun v => get_val e (vref_key v)) operands)) as [vs|] eqn:Dv; [| discriminate].
+      destruct (all_some (map (fun na : Z * aref => match get_attr e (aref_key (snd na)) with
+                                                   | Some a => Some (fst na, a) | None => None end) attrs)) as [ats|] eqn:Da;
+        [| discriminate].
+      rewrite <- (map_map vref_key (get_val e)) in Dv.
+      assert (Hcreate : forall sc cc rt regs3 ts (Hts : rr_types fx regs3 rt = Some ts),
+                Inv e sc regs3 -> ext regs regs3 -> steps_at pl (ca ++ cb ++ cc) regs regs3 ->
+                Forall2 (agree_kr e regs3) (map vref_key operands) ro ->
+                Forall2 (agree_kr e regs3) (map (fun na => aref_key (snd na)) attrs) ra ->
+                rg_used sc = rg_used st1 ->
+                st1 = {| rg_vals := (KLocal l0, RT (rg_ntmp sc)) :: rg_vals sc; rg_used := rg_used sc;
+                         rg_nargs := rg_nargs sc; rg_ntmp := rg_ntmp sc + 1 |} ->
+                c1 = ca ++ cb ++ cc ++ [RCreateOp (RT (rg_ntmp sc)) name ro (combine (map fst attrs) ra) rt] ->
+                match create_op pl pid name vs ats ts with
+                | Some (pl', id) => run_rw fx pid l ((KLocal l0, OOp id) :: e) pl'
+                | None => RErr
+                end = ROk plF ->
+                run_rewriter fx pid (c1 ++ c2 ++ [RFinalize]) regs pl = ROk plF).
+      { intros sc cc rt regs3 ts Hts HI3 Hx3 Hst Fo Fa Hu -> -> Hd'.
+        replace ((ca ++ cb ++ cc ++ [RCreateOp (RT (rg_ntmp sc)) name ro (combine (map fst attrs) ra) rt]) ++ c2 ++ [RFinalize])
+          with ((ca ++ cb ++ cc) ++ [RCreateOp (RT (rg_ntmp sc)) name ro (combine (map fst attrs) ra) rt] ++ c2 ++ [RFinalize])
+          by (rewrite <- !app_assoc; reflexivity).
+        rewrite Hst. simpl app. cbn [run_rewriter].
+        rewrite <- (get_val_agree _ _ _ _ Fo), Dv, (get_attr_agree _ _ _ _ Fa), Da, Hts.
+        destruct (create_op pl pid name vs ats ts) as [[pl' id]|] eqn:Dc; [| discriminate].
+        eapply IH; [apply Inv_local; exact HI3 | exact E2 | exact Hpre | eapply RI_create; eassumption | exact Hd']. }
+      assert (Hpa : pre (rg_used sb) usedF -> exists regs2, steps (ca ++ cb) regs regs2 /\ Inv e sb regs2 /\ ext regs regs2 /\
+                Forall2 (agree_kr e regs2) (map vref_key operands) ro /\
+                Forall2 (agree_kr e regs2) (map (fun na => aref_key (snd na)) attrs) ra).
+      { intro Hpb.
+        assert (Hpa : pre (rg_used sa) usedF) by (eapply pre_trans; [eapply map_values_le; exact Eb | exact Hpb]).
+        destruct (map_values_sim _ _ _ _ _ _ _ HI (key_bound_val _ _ _ Dv) Ea Hpa) as (regs1 & S1 & I1 & F1 & X1).
+        destruct (map_values_sim _ _ _ _ _ _ _ I1 (key_bound_attr _ _ _ Da) Eb Hpb) as (regs2 & S2 & I2 & F2 & X2).
+        exists regs2. split; [eapply steps_app; eassumption |]. split; [exact I2 |]. split; [eapply ext_trans; eassumption |].
+        split; [eapply agree_ext; eassumption | exact F2]. }
+      destruct tys as [|t tys].
+      * destruct (existsb (is_replace_with l0) l) eqn:Ex.
+        -- (* Strategy 3: result types of the replaced operation *)
+           destruct (map_value fx P inp sb (KOp (op_id rootpat))) as [[[sc cc] rroot]|] eqn:Ec; [| discriminate].
+           cbv beta iota zeta delta [rtmp] in E1. inversion E1; subst; clear E1.
+           rewrite Hinfer in Hd. cbn [andb] in Hd. destruct (find_op pl pid) as [x|] eqn:Df; [| discriminate].
+           assert (Hpc : pre (rg_used sc) usedF) by exact Hpre1.
+           destruct Hpa as (regs2 & S2 & I2 & X2 & Fo & Fa); [eapply pre_trans; [eapply map_value_le; exact Ec | exact Hpc] |].
+           destruct (map_value_sim _ _ _ _ _ _ _ _ I2 (root_key _ _ _ I2) Ec Hpc) as (regs3 & S3 & I3 & Hr3 & X3).
+           pose proof (find_op_id _ _ _ Df) as Hid.
+           set (n := rg_ntmp sc).
+           set (regs4 := (RT n, OVals (op_results x)) :: regs3).
+           set (regs5 := (RT (n + 1), OTypes (map (vtype pl) (op_results x))) :: regs4).
+           pose proof (Inv_tmp_none _ _ _ (OVals (op_results x)) I3) as I4.
+           pose proof (Inv_tmp_none _ _ _ (OTypes (map (vtype pl) (op_results x))) I4) as I5.
+           cbn [rg_ntmp rg_vals rg_used rg_nargs] in I5.
+           assert (X5 : ext regs3 regs5).
+           { eapply ext_trans; [eapply ext_tmp; exact I3 | eapply (ext_tmp _ _ _ _ I4)]. }
+           eapply (Hcreate _ (cc ++ [RGetResults (RT n) rroot] ++ [RGetValueType (RT (n + 1)) (RT n)]) [RT (n + 1)] regs5 (o_rtys x)).
+           ++ cbn [rr_types]. subst regs5. rewrite rrlookup_cons_eq, Hrange.
+              rewrite vtype_results by (rewrite Hid; exact Df). rewrite app_nil_r. reflexivity.
+           ++ exact I5.
+           ++ eapply ext_trans; [exact X2 |]. eapply ext_trans; [exact X3 | exact X5].
+           ++ replace (ca ++ cb ++ cc ++ [RGetResults (RT n) rroot] ++ [RGetValueType (RT (n + 1)) (RT n)])
+                with ((ca ++ cb) ++ cc ++ ([RGetResults (RT n) rroot] ++ [RGetValueType (RT (n + 1)) (RT n)]))
+                by (rewrite <- app_assoc; reflexivity).
+              eapply steps_at_app; [apply steps_at_of; exact S2 |]. eapply steps_at_app; [apply steps_at_of; exact S3 |].
+              intros rest. simpl app. cbn [run_rewriter]. unfold rr_op. rewrite Hr3, Df.
+              fold regs4. subst regs4. rewrite rrlookup_cons_eq, Hrange. reflexivity.
+           ++ eapply agree_ext; [| exact Fo]. eapply ext_trans; [exact X3 | exact X5].
+           ++ eapply agree_ext; [| exact Fa]. eapply ext_trans; [exact X3 | exact X5].
+           ++ reflexivity.
+           ++ subst n. cbn [rg_ntmp]. f_equal; try lia.
+           ++ subst n. cbn [rg_ntmp]. rewrite <- !app_assoc. simpl. repeat (f_equal; try lia).
+           ++ exact Hd.
+        -- (* no declared types, not a replacement: no results *)
+           cbv beta iota zeta delta [rtmp] in E1. inversion E1; subst; clear E1.
+           rewrite andb_false_r in Hd. cbn [rg_used] in Hpre1.
+           destruct Hpa as (regs2 & S2 & I2 & X2 & Fo & Fa); [exact Hpre1 |].
+           eapply (Hcreate sb [] [] regs2 []); try reflexivity; try assumption;
+             try (rewrite app_nil_r; apply steps_at_of; exact S2).
+      * (* declared result types *)
+        destruct (map_values fx P inp sb (map tref_key (t :: tys))) as [[[sc cc] rt]|] eqn:Ec; [| discriminate].
+        cbv beta iota zeta delta [rtmp] in E1. inversion E1; subst; clear E1.
+        destruct (all_some (map (fun t0 => get_type e (tref_key t0)) (t :: tys))) as [ts|] eqn:Dt; [| discriminate].
+        rewrite <- (map_map tref_key (get_type e)) in Dt. cbn [rg_used] in Hpre1.
+        destruct Hpa as (regs2 & S2 & I2 & X2 & Fo & Fa); [eapply pre_trans; [eapply map_values_le; exact Ec | exact Hpre1] |].
+        destruct (map_values_sim _ _ _ _ _ _ _ I2 (key_bound_type _ _ _ Dt) Ec Hpre1) as (regs3 & S3 & I3 & F3 & X3).
+        eapply (Hcreate sc cc rt regs3 ts); try reflexivity.
+        ++ eapply get_type_agree; eassumption.
+        ++ exact I3.
+        ++ eapply ext_trans; eassumption.
+        ++ rewrite app_assoc. eapply steps_at_app; apply steps_at_of; eassumption.
+        ++ eapply agree_ext; eassumption.
+        ++ eapply agree_ext; eassumption.
+        ++ exact Hd.
+    + (* pdl.result of a new operation *)
+      destruct (map_value fx P inp st (KLocal lop)) as [[[sa ca] r]|] eqn:Ea; [| discriminate].
+      cbv beta iota zeta delta [rtmp] in E1. inversion E1; subst; clear E1. cbn [rg_used] in Hpre1.
+      destruct (get_opid e (KLocal lop)) as [pid'|] eqn:Dg; [| discriminate].
+      destruct (find_op pl pid') as [x|] eqn:Df; [| discriminate].
+      destruct ((0 <=? idx) && (idx <? zlen (o_rtys x))) eqn:Dr; [| discriminate].
+      destruct (map_value_sim _ _ _ _ _ _ _ _ HI (get_opid_key _ _ _ Dg) Ea Hpre1) as (regs1 & S1 & I1 & Hr1 & X1).
+      rewrite <- app_assoc. rewrite S1. simpl app. cbn [run_rewriter]. unfold rr_op. rewrite Hr1, Df, Dr.
+      rewrite (find_op_id _ _ _ Df).
+      eapply IH; [apply Inv_local; exact I1 | exact E2 | exact Hpre | exact HRI | exact Hd].
+    + (* pdl.replace with values *)
+      destruct (map_values fx P inp st (map vref_key vs)) as [[[sa ca] rs]|] eqn:Ea; [| discriminate].
+      destruct (map_value fx P inp sa (KOp (op_id rootpat))) as [[[sb cb] rroot]|] eqn:Eb; [| discriminate].
+      inversion E1; subst; clear E1.
+      destruct vs as [|v0 vs]; [discriminate |].
+      destruct (all_some (map (fun v => get_val e (vref_key v)) (v0 :: vs))) as [news|] eqn:Dv; [| discriminate].
+      destruct (replace_op pl pid news) as [pl'|] eqn:Dp; [| discriminate].
+      rewrite <- (map_map vref_key (get_val e)) in Dv.
+      assert (Hpa : pre (rg_used sa) usedF) by (eapply pre_trans; [eapply map_value_le; exact Eb | exact Hpre1]).
+      destruct (map_values_sim _ _ _ _ _ _ _ HI (key_bound_val _ _ _ Dv) Ea Hpa) as (regs1 & S1 & I1 & F1 & X1).
+      destruct (map_value_sim _ _ _ _ _ _ _ _ I1 (root_key _ _ _ I1) Eb Hpre1) as (regs2 & S2 & I2 & Hr2 & X2).
+      inversion F1 as [| k0 r0 ks0 rs0 _ F1' Hk Hr]; subst.
+      rewrite <- !app_assoc. rewrite S1, S2. simpl app. cbn [run_rewriter].
+      destruct (replace_op_find _ _ _ _ Dp) as (x & Dx & Hid).
+      unfold rr_op. rewrite Hr2, Dx.
+      change ((false, r0) :: map (fun r => (false, r)) rs0) with (map (fun r : rreg => (false, r)) (r0 :: rs0)).
+      rewrite repl_values_false. rewrite <- (get_val_agree e regs2 (map vref_key (v0 :: vs)) (r0 :: rs0)) by (eapply agree_ext; eassumption).
+      rewrite Dv, Hid, Dp.
+      eapply IH; [exact I2 | exact E2 | exact Hpre | apply RI_gone; eapply find_after_replace; exact Dp | exact Hd].
+    + (* pdl.replace with an operation *)
+      destruct (op_rtys rootpat) as [|t0 ts0] eqn:Ert.
+      { (* the root declares no result types: the lowering erases it; the replacement has no results either *)
+        destruct (map_value fx P inp st (KOp (op_id rootpat))) as [[[sa ca] rroot]|] eqn:Ea; [| discriminate].
+        inversion E1; subst; clear E1.
+        destruct (get_opid e (KLocal l0)) as [pid'|] eqn:Dg; [| discriminate].
+        destruct (find_op pl pid') as [xn|] eqn:Df; [| discriminate].
+        destruct (replace_op pl pid (op_results xn)) as [pl'|] eqn:Dp; [| discriminate].
+        destruct (replace_op_find _ _ _ _ Dp) as (x & Dx & Hid).
+        assert (Hx0 : o_rtys x = []) by (eapply HRI; [reflexivity | exact Dx]).
+        assert (Hnil : op_results xn = []).
+        { unfold replace_op in Dp. rewrite Dx, Hx0 in Dp.
+          destruct (op_results xn); [reflexivity |]. simpl in Dp. unfold zlen in Dp. simpl in Dp.
+          destruct (0 =? Z.pos (Pos.of_succ_nat (length l1))) eqn:Ez; [apply Z.eqb_eq in Ez; lia | discriminate]. }
+        rewrite Hnil, (replace_nil_erase _ _ _ Dx Hx0) in Dp.
+        destruct (map_value_sim _ _ _ _ _ _ _ _ HI (root_key _ _ _ HI) Ea Hpre1) as (regs1 & S1 & I1 & Hr1 & X1).
+        rewrite <- !app_assoc. rewrite S1. simpl app. cbn [run_rewriter]. rewrite Herase. unfold rr_op. rewrite Hr1, Dx.
+        rewrite Hid, Dp.
+        eapply IH; [exact I1 | exact E2 | exact Hpre | apply RI_gone; eapply find_after_erase; exact Dp | exact Hd]. }
+      destruct (map_value fx P inp st (KLocal l0)) as [[[sa ca] r]|] eqn:Ea; [| discriminate].
+      cbv beta iota zeta delta [rtmp] in E1.
+      match type of E1 with context [map_value fx P inp ?s (KOp (op_id rootpat))] => set (sa' := s) in * end.
+      destruct (map_value fx P inp sa' (KOp (op_id rootpat))) as [[[sb cb] rroot]|] eqn:Eb; [| discriminate].
+      inversion E1; subst; clear E1.
+      destruct (get_opid e (KLocal l0)) as [pid'|] eqn:Dg; [| discriminate].
+      destruct (find_op pl pid') as [xn|] eqn:Df; [| discriminate].
+      destruct (replace_op pl pid (op_results xn)) as [pl'|] eqn:Dp; [| discriminate].
+      assert (Hpa' : pre (rg_used sa') usedF) by (eapply pre_trans; [eapply map_value_le; exact Eb | exact Hpre1]).
+      assert (Hpa : pre (rg_used sa) usedF) by exact Hpa'.
+      destruct (map_value_sim _ _ _ _ _ _ _ _ HI (get_opid_key _ _ _ Dg) Ea Hpa) as (regs1 & S1 & I1 & Hr1 & X1).
+      pose proof (Inv_tmp_none _ _ _ (OVals (op_results xn)) I1) as I1'. fold sa' in I1'.
+      destruct (map_value_sim _ _ _ _ _ _ _ _ I1' (root_key _ _ _ I1') Eb Hpre1) as (regs2 & S2 & I2 & Hr2 & X2).
+      rewrite <- !app_assoc. rewrite S1. simpl app. cbn [run_rewriter]. unfold rr_op at 1. rewrite Hr1, Df.
+      rewrite <- !app_assoc. rewrite S2. simpl app. cbn [run_rewriter].
+      destruct (replace_op_find _ _ _ _ Dp) as (x & Dx & Hid).
+      unfold rr_op. rewrite Hr2, Dx. cbn [repl_values]. rewrite (X2 _ _ (rrlookup_cons_eq _ _ _)).
+      rewrite app_nil_r, Hid, Dp.
+      eapply IH; [exact I2 | exact E2 | exact Hpre | apply RI_gone; eapply find_after_replace; exact Dp | exact Hd].
+    + (* pdl.erase *)
+      destruct (map_value fx P inp st (KOp (op_id rootpat))) as [[[sa ca] rroot]|] eqn:Ea; [| discriminate].
+      inversion E1; subst; clear E1.
+      destruct (find_op pl pid) as [x|] eqn:Df; [| discriminate].
+      destruct (erase_op pl pid) as [pl'|] eqn:De; [| discriminate].
+      destruct (map_value_sim _ _ _ _ _ _ _ _ HI (root_key _ _ _ HI) Ea Hpre1) as (regs1 & S1 & I1 & Hr1 & X1).
+      rewrite <- !app_assoc. rewrite S1. simpl app. cbn [run_rewriter]. rewrite Herase. unfold rr_op. rewrite Hr1, Df.
+      rewrite (find_op_id _ _ _ Df), De.
+      eapply IH; [exact I1 | exact E2 | exact Hpre | apply RI_gone; eapply find_after_erase; exact De | exact Hd].
+Qed.
 End Sim.
